@@ -117,7 +117,7 @@ func (e *Import) String() string {
 }
 
 func (e *Import) writeTo(s *strings.Builder) {
-	if e.ImportPath != "" {
+	if e.ImportAlias != "" {
 		s.WriteString("import ")
 		jsonEncodeString(s, e.ImportPath)
 		s.WriteString(" as ")
@@ -241,8 +241,12 @@ func (e *Term) writeTo(s *strings.Builder) {
 		e.Query.writeTo(s)
 		s.WriteByte(')')
 	}
-	for _, e := range e.SuffixList {
-		e.writeTo(s)
+	for i, suffix := range e.SuffixList {
+		if i == 0 && e.Type == TermTypeIdentity && suffix.Index != nil {
+			suffix.Index.writeTo(s) // ". .[0]" != ".[0]"
+		} else {
+			suffix.writeTo(s)
+		}
 	}
 }
 
